@@ -185,10 +185,60 @@ def run(ctx, w):
 
 
 
+def digit_fold(ctx, w, tb, rule="T8"):
+    """T8: the digit accumulator evaluated: for every value v and digit d with 10*v + d <= 65535 (the parameter range the
+    statements quantify over) the current part becomes exactly 10*v + d, no other part changes, and the value accessor
+    returns the first part.  What happens beyond 65535 is not specified and not checked."""
+    from rules import prims
+    ctx.rule(rule, "the parameter's digit accumulator evaluated for every (v, d) of a boundary-covering set with 10*v+d <= 65535: the current part becomes exactly 10*v+d, nothing else changes; "
+                   "the value accessor returns part 0 (counts and coordinates up to 65535 reach the handlers as written)")
+    pty = tb.param_ty
+    fl = w.facts.struct_fields(pty) or []
+    arr = [f for f in fl if f["ty"].get("array") and f["ty"]["array"]["s"] == "u16"]
+    idx = [f for f in fl if f["ty"]["s"] == "usize"]
+    fold = [fn for fn, fo in w.facts.fns.items() if (fo.get("impl_self") or {}).get("adt") == pty and [i["s"] for i in fo.get("inputs", [])][1:] == ["u8"] and fn in w.facts.hir]
+    acc = [fn for fn, fo in w.facts.fns.items() if (fo.get("impl_self") or {}).get("adt") == pty and len(fo.get("inputs", [])) == 1 and (fo.get("output") or {}).get("s") == "u16"
+           and "impl_trait" not in fo and fn in w.facts.hir]
+    if len(arr) != 1 or len(idx) != 1 or len(fold) != 1 or len(acc) != 1:
+        ctx.missing_anchor(rule, "parameter cell (u16 parts + index), its digit accumulator and value accessor", "(%s / %s / %s / %s)" % ([f["name"] for f in arr], [f["name"] for f in idx], fold, acc))
+        return
+    an, xn, n_parts = arr[0]["name"], idx[0]["name"], arr[0]["ty"]["len"]
+    vals = sorted({0, 1, 2, 5, 9, 10, 11, 42, 99, 100, 255, 256, 655, 656, 999, 1000, 4095, 6552, 6553})
+    n = bad = 0
+    for cur in sorted({0, n_parts - 1}):
+        for v in vals:
+            for d in range(10):
+                want = 10 * v + d
+                if want > 0xFFFF:
+                    continue
+                parts = [7000 + i for i in range(n_parts)]
+                parts[cur] = v
+                obj = ("obj", pty, {an: prims.Vec(list(parts)), xn: cur})
+                try:
+                    prims.VecInterp(w.facts).call_fn(fold[0], [obj, d])
+                    got = list(obj[2][an].items)
+                    gi = obj[2][xn]
+                    first = prims.VecInterp(w.facts).call_fn(acc[0], [obj])
+                except prims.errs() as ex:
+                    got, gi, first = "error: %s" % (ex,), cur, None
+                exp = list(parts)
+                exp[cur] = want
+                n += 1
+                if got != exp or gi != cur or first != exp[0]:
+                    bad += 1
+                    if bad <= 4:
+                        ctx.violation(rule, "%s(%d,%d)@%d" % (fold[0], v, d, cur), "%s on a part holding %d with digit %d gives parts %s (index %s), value accessor %s; expected the part to become %d, everything else unchanged, accessor = part 0" %
+                                      (fold[0], v, d, got, gi, first, want), loc=w.fn_loc(fold[0]))
+    if not bad:
+        ctx.ok(rule, "all", {"cases": n, "fold": fold[0], "accessor": acc[0]})
+    ctx.rule_counts[rule] = n
+
+
 def dispatch_rules(ctx, w, tb=None):
     """T3-T6: every control, ESC and CSI sequence yields exactly the implemented function with the right parameter
     slots (shared by the command-level properties: a command that is decoded wrongly cannot act rightly)."""
     tb = tb or tables.parser_tables(w)
+    digit_fold(ctx, w, tb)
     ctx.rule("T2e", "ESC from every state enters Escape and clears intermediate and parameters (a two-character escape is never dispatched under a stale marker)")
     for st in tb.states:
         cell = tb.cell(st, 0x1B)
